@@ -20,11 +20,11 @@ def Spec (cfg : Cfg) (st : St) (data : Bytes) (res : St × Outcome × Bool) : Pr
   match res.2.1 with
   | .wait =>
     -- incomplete request: nothing queued, no plugin, no teardown
-    (∃ rq, Px.Parser.parse cfg.pcfg st.request data = .ok rq ∧ rq.state ≠ .complete ∧ st'.request = rq) ∧
+    (∃ rq, reqParse cfg st data = .ok rq ∧ rq.state ≠ .complete ∧ st'.request = rq) ∧
       ret = false ∧ st'.buffer = st.buffer ∧ st'.plugin = st.plugin ∧ st'.escaped = st.escaped
   | .served pid td =>
     -- a plugin was selected for the request's protocol and its on_request_complete returned
-    ∃ rq q, Px.Parser.parse cfg.pcfg st.request data = .ok rq ∧ rq.state = .complete ∧
+    ∃ rq q, reqParse cfg st data = .ok rq ∧ rq.state = .complete ∧
       st'.request.state = .complete ∧
       handlerProtocol rq ≠ .unknown ∧ discover cfg.plugins (handlerProtocol rq).num = some pid ∧
       cfg.onComplete pid rq = .ret q td ∧
@@ -37,24 +37,24 @@ def Spec (cfg : Cfg) (st : St) (data : Bytes) (res : St × Outcome × Bool) : Pr
     ret = true ∧ st'.escaped = st.escaped ∧
     (match why with
      | .parse e =>
-       Px.Parser.parse cfg.pcfg st.request data = .error e ∧ hq = [cfg.badRequest] ∧
+       reqParse cfg st data = .error e ∧ hq = [cfg.badRequest] ∧
          st'.buffer = st.buffer ++ [cfg.badRequest] ∧ st'.plugin = st.plugin
      | .unknownProtocol =>
-       (∃ rq, Px.Parser.parse cfg.pcfg st.request data = .ok rq ∧ rq.state = .complete ∧
+       (∃ rq, reqParse cfg st data = .ok rq ∧ rq.state = .complete ∧
          handlerProtocol rq = .unknown) ∧ hq = [cfg.badRequest] ∧
          st'.buffer = st.buffer ++ [cfg.badRequest] ∧ st'.plugin = st.plugin
      | .noPlugin proto =>
-       (∃ rq, Px.Parser.parse cfg.pcfg st.request data = .ok rq ∧ rq.state = .complete ∧
+       (∃ rq, reqParse cfg st data = .ok rq ∧ rq.state = .complete ∧
          handlerProtocol rq = proto ∧ proto ≠ .unknown ∧ discover cfg.plugins proto.num = none) ∧
          hq = [cfg.badRequest] ∧ st'.buffer = st.buffer ++ [cfg.badRequest] ∧ st'.plugin = st.plugin
      | .pluginRaised pid =>
-       ∃ rq q resp, Px.Parser.parse cfg.pcfg st.request data = .ok rq ∧ rq.state = .complete ∧
+       ∃ rq q resp, reqParse cfg st data = .ok rq ∧ rq.state = .complete ∧
          discover cfg.plugins (handlerProtocol rq).num = some pid ∧ hq = respQueue resp ∧ st'.plugin = some pid ∧
          ((cfg.onComplete pid rq = .raise q resp ∧ st'.buffer = st.buffer ++ q ++ hq) ∨
           (∃ q1 rem, cfg.onComplete pid rq = .ret q1 false ∧ leftover rq = some rem ∧
              cfg.onClientData pid st.calls rem = .raise q resp ∧ st'.buffer = st.buffer ++ q1 ++ q ++ hq)))
   | .escaped pid =>
-    ∃ rq q, Px.Parser.parse cfg.pcfg st.request data = .ok rq ∧ st'.escaped = true ∧
+    ∃ rq q, reqParse cfg st data = .ok rq ∧ st'.escaped = true ∧
       ((cfg.onComplete pid rq = .crash q ∧ st'.buffer = st.buffer ++ q) ∨
        (∃ q1 rem, cfg.onComplete pid rq = .ret q1 false ∧ leftover rq = some rem ∧
           cfg.onClientData pid st.calls rem = .crash q ∧ st'.buffer = st.buffer ++ q1 ++ q))
@@ -63,7 +63,7 @@ def Spec (cfg : Cfg) (st : St) (data : Bytes) (res : St × Outcome × Bool) : Pr
 
 theorem parseFirst_spec (cfg : Cfg) (st : St) (data : Bytes) : Spec cfg st data (parseFirst cfg st data) := by
   unfold parseFirst
-  cases hp : Px.Parser.parse cfg.pcfg st.request data with
+  cases hp : reqParse cfg st data with
   | error e => simp [Spec, hp]
   | ok rq =>
     simp only
@@ -115,7 +115,7 @@ theorem parseFirst_spec (cfg : Cfg) (st : St) (data : Bytes) : Spec cfg st data 
 theorem parseFirst_flags (cfg : Cfg) (st : St) (data : Bytes) :
     (parseFirst cfg st data).1.mustFlush = st.mustFlush ∧ (parseFirst cfg st data).1.teardown = st.teardown := by
   unfold parseFirst
-  cases Px.Parser.parse cfg.pcfg st.request data with
+  cases reqParse cfg st data with
   | error e => exact ⟨rfl, rfl⟩
   | ok rq =>
     simp only
